@@ -1556,8 +1556,12 @@ impl Rem<Vec4> for Vec4 {
     type Output = Self;
     #[inline]
     fn rem(self, rhs: Self) -> Self {
-        let n = f32x4_floor(f32x4_div(self.0, rhs.0));
-        Self(f32x4_sub(self.0, f32x4_mul(n, rhs.0)))
+        Self::new(
+            self.x % rhs.x,
+            self.y % rhs.y,
+            self.z % rhs.z,
+            self.w % rhs.w,
+        )
     }
 }
 
